@@ -522,6 +522,7 @@ def run_check(prop, tier, seed):
   cases = corpus + list(prop.generate(rng.fork(), tier))
   stats = _evaluate(ctx, prop, cases, jobs, driver_ok, known)
 
+  ctx.stats = stats
   prop.extra_checks(ctx)
 
   # 6. failing-input search after a broken proof / tie -----------------------------------
